@@ -61,6 +61,7 @@ DEFAULT = dict(
   big_tree=0,  # force one chain of this many hinge dofs (inertia layout boundaries)
   p_adhesion=0.0,  # geom adhesion (MuJoCo 3.13 passive contact adhesion); 0 draws no random numbers
   p_fluid_ellipsoid=0.0,  # fluidshape="ellipsoid" on body geoms; 0 draws no random numbers
+  p_tendon_armature=None,  # None: p_armature/2 (historic behaviour)
 )
 
 
@@ -461,7 +462,7 @@ class Gen:
     if rng.random() < P["p_damping"]:
       a["damping"] = _f(rng.uniform(0.1, 3))
       self.feat.add("tendon_damping")
-    if rng.random() < P["p_armature"] * 0.5:
+    if rng.random() < (P["p_armature"] * 0.5 if P.get("p_tendon_armature") is None else P["p_tendon_armature"]):
       a["armature"] = _f(rng.uniform(0.01, 0.2))
       self.feat.add("tendon_armature")
     if rng.random() < P["p_frictionloss"]:
